@@ -746,7 +746,18 @@ void mon_c15(CaseCtx &c, Rng &rng){
         if (!err.empty()){ c.viol("exception:" + err.substr(0, err.find(':')), J().str("run", "burnup-only").str("what", err).obj()); failed = true; }
         else{ check_run(P, L, pre_burn, 0, *A, MA, c, "burnup-only"); if (MA.broken) failed = true; }
     }
+    bool reseeded = false;
     for(size_t q=0; q<segs.size() && !failed; q++){
+        // between two runs the chains may be re-seeded through either setState overload: the cached pdf values belong to the old positions and
+        // must be re-evaluated (the model expects the pdf call at the start of the next run, as for a fresh state)
+        if (q > 0 && N > 1 && rng.coin(0.3)){
+            std::vector<double> np((size_t) N * (size_t) d);
+            for(int i=0; i<N; i++) std::copy_n(P.init.begin() + (long)((size_t)((i + 1) % N) * (size_t) d), d, np.begin() + (long)((size_t) i * (size_t) d)); // cyclic shift of the (in-domain) initial positions
+            if (rng.coin()){ int i = 0; A->setState([&](double *x)->void{ std::copy_n(np.begin() + (long)((size_t) i * (size_t) d), d, x); i++; }); }
+            else A->setState(np);
+            MA.s = np; MA.p_ready = false; reseeded = true;
+            c.count("reseeded_between_runs");
+        }
         Log L;
         std::string tag = "split-" + std::to_string(q);
         std::string err = run_library(P, *A, (q == 0) ? burn : 0, segs[q], S, S2, L);
@@ -757,7 +768,7 @@ void mon_c15(CaseCtx &c, Rng &rng){
     if (N == 0){ c.sig("null-state"); return; }
     // ---- the combined run from the same initial state under the same random streams ----
     int total_collect = 0; for(int s : segs) total_collect += s;
-    if (!failed && (segs.size() > 1 || pre_burn > 0)){
+    if (!failed && !reseeded && (segs.size() > 1 || pre_burn > 0)){
         std::unique_ptr<TasmanianDREAM> B; Shadow15 MB;
         make_state(B, MB);
         S.reset(); S2.reset();
